@@ -15,7 +15,7 @@ CHECKS = {
   technique=B2 + " + " + "TLA+ trace validation (TLC) of recorded executions", ref="DESIGN.md 7/C08"),
  "C09": dict(
   text="Quota.tla transcribes the preparation phase of an epoch in exact integer arithmetic (adjustFitness: stagnation penalty, youth boost, sharing, parent cut-off; expected offspring = shared adjusted fitness / population mean; countOffspring floor-and-carry in species order; make-up offspring / population-died fallback; zero-quota purge; species sort and population stagnation; stolen babies; delta coding). TLC checks on every population in scope that quotas total the population size after every stage, that every quota is within one of its members' expected offspring (plus the single make-up offspring), the parent cut-off floor(t*n)+1 and the zero-quota purge, and emits every behaviour with every admissible float64 loss vector; each is installed in a real Population and run through the real adjustFitness / purgeZeroOffspringSpecies (compared after each), the real prepareForReproduction + Species.reproduce per species (offspring per species = quota) and the three executor phases of a whole epoch. In addition real populations evolved with real-valued fitness families under randomised options are recorded after the preparation phase and validated by the TLC trace specification Trace_Quota (fixed point 2^-20).",
-  note="Exhaustive: populations of up to 6 organisms (quick; 8 thorough) in up to 3 (4) species, every multiset of raw fitness over 0..2 or 0..3 with at least one positive value, age classes covering fresh / stagnant / debt-exactly-0 / age 10 vs 11 / improving-now, survival thresholds 1/4, 1/2, 3/4, 1, babies stolen 1..N/2, population one or two epochs before delta coding; the coin of giveBabiesToTheBest (4th sorted species) is forced through the seed. Populations of 7..10 organisms in up to 5 species by TLC simulation. float64: where the exact cumulative expectation at a species boundary is an integer the floor may come out one lower - both outcomes are enumerated and the one the real arithmetic takes is compared exactly, except on inputs where every float operation is provably exact (no 0.01 penalty, power-of-two sizes, dyadic mean and expectations), where no loss is accepted; per-organism values to 1e-9 relative. Who receives stolen babies / the make-up offspring, the species order and the stagnation bookkeeping are compared too but only reported (the statement demands totals). Real-valued fitness is sampled (seeded), tolerance 4 units of 2^-20. Trusted: TLC, the replayer's construction of populations.",
+  note="Exhaustive: populations of up to 6 organisms (quick; 8 thorough) in up to 3 (4) species, every multiset of raw fitness over 0..2 or 0..3 with at least one positive value, age classes covering fresh / stagnant / debt-exactly-0 / age 10 vs 11 / improving-now, survival thresholds 1/4, 1/2, 3/4, 1, babies stolen 1..N/2, population one or two epochs before delta coding; the coin of giveBabiesToTheBest (4th sorted species) is forced through the seed. A large-steal family (populations of 20 / 22 in 3-4 species of fixed sizes, one raw fitness per species, BabiesStolen 10 / 11 so that the hand-out blocks are 2, 2, 1 and the stolen pool can be smaller than a block) is enumerated with all robbable / not robbable / dying age-class combinations. Populations of 7..10 organisms in up to 5 species by TLC simulation. float64: where the exact cumulative expectation at a species boundary is an integer the floor may come out one lower - both outcomes are enumerated and the one the real arithmetic takes is compared exactly, except on inputs where every float operation is provably exact (no 0.01 penalty, power-of-two sizes, dyadic mean and expectations), where no loss is accepted; per-organism values to 1e-9 relative. Who receives stolen babies / the make-up offspring, the species order and the stagnation bookkeeping are compared too but only reported (the statement demands totals). Real-valued fitness is sampled (seeded), tolerance 4 units of 2^-20. Trusted: TLC, the replayer's construction of populations.",
   technique=B2 + " + " + "TLA+ trace validation (TLC) of recorded executions", ref="DESIGN.md 7/C09"),
 }
 
